@@ -201,6 +201,7 @@ def run_case(R, r):
         sobj, se = objs[src]
         where = ["same buffer", "other buffer, same context", "other context"][0 if hc.bufs[bi] is sobj._buffer else (1 if hc.bufs[bi].context is sobj._buffer.context else 2)]
         c2 = dict(ctx, copy_of=src, into=bi, where=where)
+        before_img = [L.image(b) for b in hc.bufs]
         try:
             c = cls(sobj, _buffer=hc.bufs[bi])
         except Exception as ex:
@@ -208,7 +209,20 @@ def run_case(R, r):
             hc.ops.append(f"new T c{j} {bi} (obj {src})")
             hc.exp.append(None)
             break
-        hc.note_allocs()
+        new_allocs = hc.note_allocs()
+        # C03: the copy occupies an extent it reserved, and the construction writes nothing outside what it reserved
+        try:
+            c0, c1 = int(c._offset), int(c._offset) + int(c._get_size())
+            if not any(a <= c0 and c1 <= a + n for a, n in new_allocs[bi]):
+                R.fail("C03:copy-extent-exceeds-reservation", f"{sx[:200]}: the copy ({where}) reports the extent [{c0},{c1}) but the construction reserved {new_allocs[bi][:6]}", c2)
+            for k_, b_ in enumerate(hc.bufs):
+                after_img = L.image(b_)
+                ch = [i for i in range(min(len(before_img[k_]), len(after_img))) if before_img[k_][i] != after_img[i]
+                      and not any(a <= i < a + n for a, n in new_allocs[k_])]
+                if ch:
+                    R.fail("C03:copy-writes-outside", f"{sx[:200]}: copy-construction into {where} changed bytes {ch[:8]} of buffer {k_} outside the extents it reserved {new_allocs[k_][:6]}", c2)
+        except Exception:
+            pass
         name = f"c{j}"
         hc.ops.append(f"new T {name} {bi} (obj {src})")
         hc.exp.append(f"off {c._offset} mems {mems(hc.bufs)}")
